@@ -17,7 +17,6 @@ import (
 
 	"github.com/robertkrimen/otto"
 	"github.com/robertkrimen/otto/ast"
-	"github.com/robertkrimen/otto/parser"
 	"github.com/robertkrimen/otto/token"
 	. "ottoh/lib"
 )
@@ -923,9 +922,12 @@ func parseExprText(src string) (n *N, errText string) {
 			n, errText = nil, fmt.Sprintf("PANIC %v", r)
 		}
 	}()
-	prog, err := parser.ParseFile(nil, "", src, 0)
-	if err != nil {
-		return nil, err.Error()
+	prog, _, e, mismatch := parseWays(src)
+	if mismatch != "" {
+		return historyBad(mismatch), "PARSE HISTORY: " + mismatch
+	}
+	if prog == nil {
+		return nil, e
 	}
 	if len(prog.Body) != 1 {
 		return nd(tBad, []int64{int64(100 + len(prog.Body))}), ""
@@ -957,9 +959,14 @@ func parseLiteral(src string) (ast.Expression, string) {
 				errText = fmt.Sprintf("PANIC %v", r)
 			}
 		}()
-		prog, err := parser.ParseFile(nil, "", src, 0)
-		if err != nil {
-			errText = err.Error()
+		prog, _, perr, mismatch := parseWays(src)
+		if mismatch != "" {
+			historyNote = mismatch
+			errText = "PARSE HISTORY: " + mismatch
+			return
+		}
+		if prog == nil {
+			errText = perr
 			return
 		}
 		if len(prog.Body) != 1 {
@@ -996,7 +1003,7 @@ func (g *gen) numCase(text, bucket string) {
 	} else if e != nil {
 		shown = fmt.Sprintf("not a number literal: %T", e)
 	}
-	g.env.Add(fmt.Sprintf("CNum %s %s", runesCoq([]rune(text)), obs), fmt.Sprintf("number %q -> %s", src, shown), bucket, true)
+	g.add(fmt.Sprintf("CNum %s %s", runesCoq([]rune(text)), obs), fmt.Sprintf("number %q -> %s", src, shown), bucket, true)
 }
 
 func (g *gen) strCase(lit, bucket string) { // lit includes the quotes
@@ -1010,7 +1017,7 @@ func (g *gen) strCase(lit, bucket string) { // lit includes the quotes
 	}
 	body := []rune(lit)
 	body = body[1 : len(body)-1]
-	g.env.Add(fmt.Sprintf("CStr %s %s", runesCoq(body), obs), fmt.Sprintf("string %q -> %s", lit, shown), bucket, true)
+	g.add(fmt.Sprintf("CStr %s %s", runesCoq(body), obs), fmt.Sprintf("string %q -> %s", lit, shown), bucket, true)
 }
 
 // boundary numerals: around 2^53, 2^63, 2^64, the double range ends, halfway cases
@@ -1091,7 +1098,7 @@ func (g *gen) exprCase(n *N, bucket string, density int) {
 	if relChain(n) {
 		bucket += "+relchain"
 	}
-	g.env.Add(fmt.Sprintf("CExpr %s (%s) %s", coqToks(toks), want.coq(), obs),
+	g.add(fmt.Sprintf("CExpr %s (%s) %s", coqToks(toks), want.coq(), obs),
 		fmt.Sprintf("expr %q -> %s ; generating tree %s", src, shown, want.coq()), bucket, depth(want) >= 3)
 }
 
@@ -1099,7 +1106,7 @@ func id(ix int) *N { return &N{Tag: tId, Vals: []int64{int64(ix)}, Text: idents[
 
 func runC03(env *Env) {
 	env.Import = "Otto.C03.Corr"
-	env.Rule = "pinned witnesses of every listed finding; every ordered pair of binary operators in both nestings, every unary x binary adjacency, every binary operator against ?: = postfix call new member, every pair of assignment operators; boundary numerals (2^53, 2^63, 2^64, range ends, halfway cases, every syntactic form) and random ones; every \\xHH and octal escape of every code unit below 256, every single-character escape, random strings with seeded escape forms and line continuations; every ordered pair of 41 statement forms under each way of ending a statement (semicolon, line terminator, nothing before } or end of input); every statement form as the last statement of a FunctionBody x 24 endings (// comment without line terminator, /* */, LS, PS, CR, CRLF, white space) through parser.ParseFunction, a function declaration in a program, new Function(...) and Function(...); a regular expression literal (patterns starting with = so that the scanner first reads /=, and others, with and without flags) ending each kind of statement x each statement end (; each line terminator, comment + line terminator, }, end of input) x 14 following statement forms incl. prefix ++/--; then random function bodies through the same entry points, random expression trees of depth <= 6 and random programs (all ES5 statement forms, function/array/object literals with getters and setters, for-header no-in contexts) each rendered with seeded redundant parentheses, white space, comments, line terminators and literal spellings; non-trivial = distinct rendering whose tree has depth >= 3 (expressions), >= 2 statements or depth >= 4 (programs), every literal case"
+	env.Rule = "pinned witnesses of every listed finding; every ordered pair of binary operators in both nestings, every unary x binary adjacency, every binary operator against ?: = postfix call new member, every pair of assignment operators; boundary numerals (2^53, 2^63, 2^64, range ends, halfway cases, every syntactic form) and random ones; every \\xHH and octal escape of every code unit below 256, every single-character escape, random strings with seeded escape forms and line continuations; every ordered pair of 41 statement forms under each way of ending a statement (semicolon, line terminator, nothing before } or end of input); every statement form as the last statement of a FunctionBody x 24 endings (// comment without line terminator, /* */, LS, PS, CR, CRLF, white space) through parser.ParseFunction, a function declaration in a program, new Function(...) and Function(...); a regular expression literal (patterns starting with = so that the scanner first reads /=, and others, with and without flags) ending each kind of statement x each statement end (; each line terminator, comment + line terminator, }, end of input) x 14 following statement forms incl. prefix ++/--; every sequence of up to four member / index / call / new(args) / new steps (780 chains, nested new included) alone and as operands; 36 expression slots of all statement forms x 32 classes of expression (comma, in, assignment, conditional with in in each operand, relational, function / object / array / regexp literals); EVERY source is parsed with a nil file.FileSet and as 1st, 2nd and a later file of a shared FileSet and must give the same tree and statement offsets without panic; then random function bodies through the same entry points, random expression trees of depth <= 6 and random programs (all ES5 statement forms, function/array/object literals with getters and setters, for-header no-in contexts) each rendered with seeded redundant parentheses, white space, comments, line terminators and literal spellings; non-trivial = distinct rendering whose tree has depth >= 3 (expressions), >= 2 statements or depth >= 4 (programs), every literal case"
 	env.Extra["forced_coverage"] = map[string]int{"binary_operator_pairs": len(binops) * len(binops) * 2, "unary_binary": len(unops) * len(binops) * 2,
 		"assignment_pairs": len(asgops) * len(asgops), "statement_forms": 41, "escape_sweep_units": 256, "function_body_endings": len(bodySuffixes)}
 	g := &gen{env: env, r: env.Rng, cov: map[string]int{}}
@@ -1187,7 +1194,9 @@ func runC03(env *Env) {
 		g.strCase(t, "str-boundary")
 	}
 
+	g.newChains()
 	g.statementPairs()
+	g.slotGrid()
 	g.functionBodies(sampleStatements)
 	g.regexStatementEnds()
 
